@@ -770,6 +770,41 @@ impl Session {
                 });
                 Ok(json!(true))
             }
+            "wait_exit" => {
+                // reap the (detached or released) child: only meaningful when no debugger owns it
+                let pid = self.last_pid.ok_or("no pid")?;
+                let timeout_ms = c.get("timeout_ms").and_then(|v| v.as_u64()).unwrap_or(5000);
+                let t0 = std::time::Instant::now();
+                loop {
+                    let mut st = 0i32;
+                    let r = unsafe { libc::waitpid(pid, &mut st, libc::WNOHANG) };
+                    if r == pid {
+                        if libc::WIFEXITED(st) {
+                            return Ok(json!({"exited": libc::WEXITSTATUS(st)}));
+                        }
+                        if libc::WIFSIGNALED(st) {
+                            return Ok(json!({"signaled": libc::WTERMSIG(st)}));
+                        }
+                        if libc::WIFSTOPPED(st) {
+                            return Ok(json!({"stopped": libc::WSTOPSIG(st)}));
+                        }
+                        return Ok(json!({"status": st}));
+                    }
+                    if r < 0 {
+                        return Err(format!("waitpid: {}", std::io::Error::last_os_error()));
+                    }
+                    if t0.elapsed().as_millis() as u64 > timeout_ms {
+                        return Ok(json!({"timeout": true}));
+                    }
+                    std::thread::sleep(std::time::Duration::from_millis(2));
+                }
+            }
+            "proc_alive" => {
+                let pid = get_u64(c, "pid")? as i32;
+                let st = std::fs::read_to_string(format!("/proc/{pid}/stat")).unwrap_or_default();
+                let state = st.rfind(')').and_then(|p| st[p + 1..].trim().chars().next());
+                Ok(json!({"exists": !st.is_empty(), "state": state.map(|c| c.to_string())}))
+            }
             "parse_expr" => {
                 let e = get_str(c, "text")?;
                 match expression::parser().parse(e).into_result() {
